@@ -40,7 +40,8 @@ mod imp {
         let r2 = fmt_r(serde_json::from_str::<LanguageIdentifier>(&esc));
         let r3 = fmt_r(serde_json::from_value::<LanguageIdentifier>(serde_json::Value::String(s.to_string())));
         let r4 = fmt_r(serde_json::from_slice::<LanguageIdentifier>(plain.as_bytes()));
-        if r1 != r2 || r1 != r3 || r1 != r4 { return format!("INCONSISTENT plain={} escaped={} value={} slice={}", r1, r2, r3, r4); }
+        let r5 = fmt_r(serde_json::from_reader::<_, LanguageIdentifier>(std::io::Cursor::new(plain.as_bytes().to_vec())));
+        if r1 != r2 || r1 != r3 || r1 != r4 || r1 != r5 { return format!("INCONSISTENT plain={} escaped={} value={} slice={} reader={}", r1, r2, r3, r4, r5); }
         r1
     }
     pub fn serde_roundtrip(v: &[u8]) -> String {
